@@ -45,6 +45,13 @@ SITES = {
     "string_name": ('<b tal:content="string:p${v} q">x</b>', "<b>p", " q</b>",
                     "text"),
     "pipe": ('<b tal:content="nosuch | {v}">x</b>', "<b>", "</b>", "text"),
+    # a dynamic value that is also offered for translation
+    "content_translate": ('<b i18n:translate="" tal:content="{v}">x</b>',
+                          "<b>", "</b>", "text"),
+    "replace_translate": ('<b i18n:translate="" tal:replace="{v}">x</b>',
+                          "", "", "text"),
+    "onerror_translate": ('<b i18n:translate="" tal:on-error="{v}">'
+                          '${{nosuchname}}</b>', "<b>", "</b>", "text"),
     # string: expressions inside an interpolation (in an element of their
     # own: a string: body accepts anything up to the last brace of the text)
     "interp_string": ('<b>${{string:p${{{v}}}q}}</b>', "<b>p", "q</b>",
@@ -117,14 +124,30 @@ RAW_SITES = [k for k, v in SITES.items() if v[3] == "raw"]
 ENTITY_RE = re.compile(r"&(#[0-9]+|#x[0-9a-fA-F]+|[A-Za-z][A-Za-z0-9]*);")
 
 
+# texts whose only markup-significant character is ONE of these (whatever
+# decides "does this value need escaping at all" must know each of them)
+SINGLE_CLASS = {
+    "'": ["x' onmouseover='alert(1)", "it's", "'", "a 'b' c"],
+    '"': ['x" onclick="alert(1)', '"', 'say "hi"'],
+    "&": ["a&b", "&", "R&D &c"],
+    "<": ["a<b", "<", "1 < 2 <"],
+    ">": ["a>b", ">", "-> >"],
+}
+
+
 def hostile_text():
-    return st.lists(st.sampled_from(HOSTILE_ATOMS), min_size=1,
-                    max_size=5).map("".join)
+    mixed = st.lists(st.sampled_from(HOSTILE_ATOMS), min_size=1,
+                     max_size=5).map("".join)
+    single = st.sampled_from(sorted(SINGLE_CLASS)).flatmap(
+        lambda c: st.sampled_from(SINGLE_CLASS[c]))
+    return st.one_of(mixed, mixed, mixed, single)
 
 
 @st.composite
 def cases(draw):
-    n = draw(st.integers(1, 6))
+    # (often one site alone: what one site configures for the whole
+    # template must not be what makes another one safe)
+    n = draw(st.sampled_from([1, 1, 2, 3, 4, 5, 6]))
     sites = []
     for i in range(n):
         raw = draw(st.integers(0, 5)) == 0
